@@ -36,11 +36,24 @@ ESSENTIAL_LABELS = {t: ["object-clause", "has:frac", "has:Q", "has:pop", "has:do
 REGION_POP = "population_not_in_parser_table"
 
 
+# the parser's documented name table: A-Z (without the builders P and Q), "Pi" and "π", each bare, with a digit, and with
+# an underscore and a digit
+_LETTERS = [c for c in "ABCDEFGHIJKLMNORSTUVWXYZ"] + ["Pi", "π"]
+TABLE = [l + suffix for l in _LETTERS for suffix in [""] + [str(d) for d in range(10)] + ["_" + str(d) for d in range(10)]]
+NAME_POOL = ["A", "B", "C1", "D_2", "Z9", "E", "X0", "Pi", "π", "Pi1", "Pi2", "Pi6", "Pi_3", "Pi9", "π2", "π_5", "O", "I1", "S", "N_0"]
+POP_POOL = ["π1", "π2", "Pi1", "Pi2", "Pi5", "π", "π_1", "Pi_4", "A1", "T"]
+
+
 @st.composite
 def _case(draw):
     depth = draw(st.sampled_from([1, 2, 2, 3, 3, 4]))
     fam = draw(st.integers(0, 2))
     spec = draw(exprgen.expr_specs(depth=depth, names=NAMES, q=True, zero=fam == 0, one=fam != 2, mixed_worlds=True))
+    if draw(st.booleans()):
+        # other names from the parser's table, including the ones that look alike (Pi1 / π1) -- populations too
+        vs = draw(st.lists(st.sampled_from(NAME_POOL), min_size=len(NAMES), max_size=len(NAMES), unique=True))
+        ps = draw(st.lists(st.sampled_from([p for p in POP_POOL if p not in vs]), min_size=2, max_size=2, unique=True))
+        spec = exprgen.rename_spec(spec, dict(zip(NAMES, vs)), dict(zip(exprgen.POPS, ps)))
     return {"spec": spec, "mseed": draw(st.integers(0, 2**32))}
 
 
@@ -84,7 +97,7 @@ def check(case, ignore_regions=False) -> Outcome:
     out = Outcome(key=str(spec))
     labels = {"has:" + k for k in kinds(spec)}
     pops = _pops(spec, set())
-    if not ignore_regions and REGION_POP in open_regions(ID) and any(p not in exprgen.POPS for p in pops):
+    if not ignore_regions and REGION_POP in open_regions(ID) and any(p not in TABLE for p in pops):
         out.excluded = REGION_POP
         return out
     try:
